@@ -104,7 +104,35 @@ def checker_assignment_documents(case):
                 matrix={'profile': 'car', 'travelTimes': [0] * 4, 'distances': [0] * 4}, solution=solution)
 
 
+def relation_rules_documents(case):
+    """problem + matrix documents for a relation_rules case: jobs j1, j2; vehicle type A = [v1] (one shift), type B = [v2] (two shifts); shift
+    properties (break / reload / end) as the case says (default: all present); the relations of the case."""
+    import datetime
+    rfc = lambda t: datetime.datetime.fromtimestamp(int(t), datetime.timezone.utc).strftime('%Y-%m-%dT%H:%M:%SZ')
+    day = 86400
+    flags = case.get('shift_flags') or {}
+
+    def shift(key, a, b):
+        fl = flags.get(key, {'breaks': True, 'reloads': True, 'end': True})
+        doc = {'start': {'earliest': rfc(a), 'location': {'index': 0}}}
+        if fl['end']:
+            doc['end'] = {'latest': rfc(b), 'location': {'index': 0}}
+        if fl['breaks']:
+            doc['breaks'] = [{'time': [rfc(a + 3600), rfc(a + 7200)], 'places': [{'duration': 60.0}]}]
+        if fl['reloads']:
+            doc['reloads'] = [{'location': {'index': 0}, 'duration': 60.0}]
+        return doc
+    vt = lambda tid, vid, shifts: {'typeId': tid, 'vehicleIds': [vid], 'profile': {'matrix': 'car'}, 'costs': {'fixed': 1.0, 'distance': 1.0, 'time': 1.0}, 'shifts': shifts, 'capacity': [10]}
+    vehicles = [vt('typeA', 'v1', [shift('v1/0', 0, 10 * day)]), vt('typeB', 'v2', [shift('v2/0', 0, 10 * day), shift('v2/1', 15 * day, 25 * day)])]
+    jobs = [{'id': j, 'deliveries': [{'places': [{'location': {'index': 0}, 'duration': 0.0}], 'demand': [1]}]} for j in ('j1', 'j2')]
+    relations = [dict({'type': 'any', 'jobs': r['jobs'], 'vehicleId': r['vehicle']}, **({'shiftIndex': r['shift']} if r['shift'] is not None else {})) for r in case['relations']]
+    problem = {'plan': {'jobs': jobs, 'relations': relations}, 'fleet': {'vehicles': vehicles, 'profiles': [{'name': 'car'}]}}
+    return dict(case, kind='job_rules', problem=problem, matrix={'profile': 'car', 'travelTimes': [0], 'distances': [0]})
+
+
 def run_native(case, profile='dev'):
+    if case.get('kind') == 'relation_rules':
+        case = relation_rules_documents(case)
     if case.get('kind') == 'checker_assignment':
         case = checker_assignment_documents(case)
     if case.get('kind') in ('location_index', 'id_rules'):
@@ -919,6 +947,12 @@ def evaluate(case, native):
             return True, (f'route level: locked job {"rejected" if native["locked_rejected"] else "admitted"} while the lock condition {"holds" if case["condition_holds"] else "does not hold"} '
                           f'for the vehicle; unrelated job {"rejected" if native["free_rejected"] else "admitted"}')
         return False, 'lock rule agrees'
+    if kind == 'relation_rules':
+        reported = case['rule'] in native['codes']
+        if reported != case['broken']:
+            return True, (f'validator {"reports" if reported else "does not report"} {case["rule"]} although the documented rule is {"broken" if case["broken"] else "not broken"}: '
+                          f'relations {case["relations"]}, shift properties {case.get("shift_flags")} (all codes: {native["codes"]})')
+        return False, f'{case["rule"]}: reported={reported} agrees with the documented rule'
     if kind == 'id_rules':
         reported = case['rule'] in native['codes']
         if reported != case['broken']:
